@@ -472,7 +472,7 @@ pub fn auto_replay(path: &str) -> Value {
         for choice in ["Never", "AlwaysAnsi", "Always", "Auto"] {
             let expect = if choice == "Never" || choice == "Auto" { &strip } else { &pass };
             let expect_rep = if choice == "Never" || choice == "Auto" { "Never" } else { "AlwaysAnsi" };
-            for kind in 0..3 {
+            for kind in 0..4 {
                 if kind == 2 && cases % 40 != 0 {
                     continue;
                 }
@@ -518,6 +518,15 @@ pub fn auto_replay(path: &str) -> Value {
                             let d = inner.borrow().delivered.clone();
                             (d, rep)
                         }
+                        3 => {
+                            #[allow(deprecated)]
+                            let mut s = anstream::AutoStream::new(anstream::Buffer::new(), choice_of(choice));
+                            let rep = choice_name(s.current_choice());
+                            drive(&mut s, &ops);
+                            #[allow(deprecated)]
+                            let b = s.into_inner();
+                            (b.as_bytes().to_vec(), rep)
+                        }
                         _ => {
                             let f = std::fs::File::create(&tmp).unwrap();
                             let mut s = anstream::AutoStream::new(f, choice_of(choice));
@@ -535,7 +544,7 @@ pub fn auto_replay(path: &str) -> Value {
                 if !ok {
                     bad += 1;
                     if bad <= 30 {
-                        println!("{}", json!({"mismatch":{"ops":c["ops"],"choice":choice,"inner_kind":(["Vec","BoxDyn","File"][kind]),"expected":{"delivered":expect,"reported":expect_rep},"observed":got}}));
+                        println!("{}", json!({"mismatch":{"ops":c["ops"],"choice":choice,"inner_kind":(["Vec","BoxDyn","File","Buffer"][kind]),"expected":{"delivered":expect,"reported":expect_rep},"observed":got}}));
                     }
                 }
             }
